@@ -30,9 +30,18 @@ From TQ Require Import PyStm PyStmProofs PyPreludeRunTask PyPreludeRunTaskProofs
 From Src Require Import Gen_run_task.
 Import ListNotations.
 
+(* What the model does not look at and run_task only uses to decide whether to call _prepare_task (no event): the entry of
+   self.prepared_handlers for the message's task name (the function object the per-name caches were built for, or no
+   entry), which object `target` is, and the object its attribute original_func holds (if it has one).  ANY values: every
+   theorem of this file is closed over the three at the end of the section, without a hypothesis about them. *)
+Section AnyObjects.
+Variable prepared : option nat.
+Variable fobj : nat.
+Variable forig : option nat.
+
 (* the objects a configuration describes *)
 Definition run_task_gen (c : pcfg) (known validate : bool) (m : msg) : RM res :=
-  run_task_py (mkself c known validate) (mkfunc c) m.
+  run_task_py (mkself c known validate prepared) (mkfunc c fobj forig) m.
 
 (* the loop of the generated text -> the model's hook loop (side condition decided by computation on the cases of
    the hook slot) *)
@@ -80,7 +89,8 @@ Ltac await_to_model :=
 Ltac unfold_prims :=
   unfold run_task_gen, run_task_py,
     get_running_loop, task_name, known_tasks, name_in, validate_params, task_signatures, task_hints, dependency_graphs,
-    broker_of, executor_of, propagate_exceptions, prepare_task, signatures_get, hints_get, hints_or_empty, graphs_get,
+    broker_of, executor_of, propagate_exceptions, prepared_handlers, handlers_get, func_object, original_func_or_self,
+    object_is, prepare_task, signatures_get, hints_get, hints_or_empty, graphs_get,
     parse_params, custom_dependency_context, broker_state, dependency_overrides, overrides_or_none, Context,
     context_entries, bctx_update, bctx_copy, async_ctx, clock_start, clock_elapsed, round2, empty_kwargs, msg_args,
     msg_kwargs, kwargs_update, resolve_kwargs, iscoroutinefunction, call_coroutine_function, run_sync_helper,
@@ -95,7 +105,7 @@ Ltac simp :=
   cbn [run_fn_ret sbind bind lift next return_v raise_ ret raise emit try_else_on
        is_NoResultError is_BaseException is_exception exn_class option_map
        Pipeline.bind of_outc of_M run_body
-       rs_cfg rs_known rs_validate fn_cfg l_id l_timeout dc_cfg dc_pe is_CancelledError
+       rs_cfg rs_known rs_validate rs_prepared fn_cfg fn_obj fn_original l_id l_timeout dc_cfg dc_pe is_CancelledError
        Nat.eqb E_NORESULT E_TIMEOUT E_DEP E_GENEXIT
        app fst snd negb andb orb].
 Ltac finish_eq := repeat rewrite app_nil_r; repeat rewrite <- app_assoc; cbn [app]; reflexivity.
@@ -123,13 +133,11 @@ Proof.
   intros c known validate m. unfold run_task_open, rt_rest. rewrite try_block_split.
   unfold_prims. unfold_model. run_both.
 Qed.
-Print Assumptions run_task_open_src.
 
 (* generated = the hand-written model Pipeline.run_task, outside finding D10's region *)
 Theorem run_task_src_partial : forall c known validate m, closes_coroutine c m = false ->
   run_task_gen c known validate m = of_M (Pipeline.run_task c m).
 Proof. intros c known validate m H. rewrite run_task_open_src, (run_task_open_eq c m H). reflexivity. Qed.
-Print Assumptions run_task_src_partial.
 
 (* inside it (a sync function raising GeneratorExit, awaited to its end): the model stops after the try block and
    raises XGenExit in callback; the generated function - run_task as a coroutine of its own - catches the exception like
@@ -141,7 +149,6 @@ Proof.
   intros c known validate m H. rewrite run_task_open_src, run_task_snd, run_task_fst, H. split; [reflexivity|].
   unfold of_M, run_task_open. cbn [fst]. exists (FExecEnd :: fst (rt_rest c m (snd (try_block c m)))). rewrite app_nil_r. reflexivity.
 Qed.
-Print Assumptions run_task_d10_src.
 
 (* ------------------------------------------------------------------------------------------ C07 over the generated function *)
 (* what the generated run_task returns: the TaskiqResult assembled from the outcome of the try block
@@ -161,7 +168,6 @@ Proof.
     rewrite S; [rewrite (res_loop_snd _ _ _ _ _ _ _ T); reflexivity|].
     destruct (is_opened (c_dep c)), (c_prop c); reflexivity.
 Qed.
-Print Assumptions C07_result_src.
 
 (* hooks that leave the result object alone do not raise *)
 Lemma identity_total : forall st,
@@ -190,7 +196,6 @@ Proof.
   rewrite (C07_result_src c known validate m T). cbv zeta. rewrite (fold_hook_id _ _ _ I).
   destruct (is_raise (snd (try_block c m))); reflexivity.
 Qed.
-Print Assumptions C07_result_reflects_src.
 
 (* C07_timeout / C07_no_timeout_label over the generated function: the timeout label of the message the function is run
    with is enforced for coroutine functions - the returned result carries TimeoutError when the body outlasts it or the
@@ -218,7 +223,6 @@ Proof.
   - destruct (H3 H H0) as [_ G2]. rewrite run_task_open_src. unfold of_M, run_task_open. cbn [fst].
     right. apply in_or_app. left. exact G2.
 Qed.
-Print Assumptions C07_timeout_src.
 
 Theorem C07_no_timeout_label_src : forall c known validate m,
   Forall (fun w => match h_on_error w with Some f => forall y, f y = Some y | None => True end) (c_stack c) ->
@@ -230,4 +234,14 @@ Proof.
   rewrite (C07_result_src c known validate m T). cbv zeta. rewrite (fold_hook_id _ _ _ I), (no_timeout_label c m D L).
   destruct (is_raise (c_out c)); reflexivity.
 Qed.
+
+End AnyObjects.
+
+(* closed over prepared / fobj / forig: forall prepared fobj forig, <the statement above> *)
+Print Assumptions run_task_open_src.
+Print Assumptions run_task_src_partial.
+Print Assumptions run_task_d10_src.
+Print Assumptions C07_result_src.
+Print Assumptions C07_result_reflects_src.
+Print Assumptions C07_timeout_src.
 Print Assumptions C07_no_timeout_label_src.
